@@ -19,7 +19,7 @@ CLAIMS = {
              "and influence nothing else (taint closure of expect/flags reaches only tests, bookkeeping and messages).",
         note="Trusted: the engine's reading of Python membership tests and control dependence; C09's facts that keys "
              "and buckets are what they seem. Run-time behaviour of dict/set equality is not modelled.",
-        technique="AST option-set extraction + exhaustive decision-table comparison; CFG dominance; taint (def-use) closure",
+        technique="term-domain abstract interpretation -> raise events with literal expect sets in their path conditions; exhaustive decision-table comparison; influence = term/condition dependence on expect",
         design="2/C11"),
     "C09": dict(
         text="Decides structural necessary conditions of a correct hash join, extracted by dataflow roles (never by "
@@ -32,7 +32,7 @@ CLAIMS = {
              "run-time value property and is NOT decided.",
         note="A structural necessary condition is decided, not the behaviour. Trusted: role extraction (fails closed with "
              "ANALYSIS-ERROR when the join is refactored beyond recognition), dict/tuple equality semantics at run time.",
-        technique="dataflow role extraction + typed-buffer discipline + CFG/guard analysis + effect summaries + sibling fact comparison",
+        technique="flow-sensitive abstract interpretation over a term domain (symx: events + path conditions, helpers inlined) -> semantic join model with linear buffer positions; typed-emission discipline; effect summaries; sibling fact comparison",
         design="2/C09"),
     "C10": dict(
         text="Same extraction on join and full_join plus completeness structure: no continue/break/return in the probe "
@@ -42,7 +42,7 @@ CLAIMS = {
              "which gives right-table order; matched-pair block fact-equal to inner_join's (inner ⊆ left ⊆ full by "
              "construction). Value-level multiset symmetry is NOT decided.",
         note="A structural necessary condition is decided, not the behaviour (see C09).",
-        technique="dataflow role extraction + typed-buffer discipline per emission block + sibling fact comparison",
+        technique="term-domain abstract interpretation -> semantic join model; per-context emission discipline (matched / unmatched-left / sweep); sibling fact comparison",
         design="2/C10"),
     "C01": dict(
         text="Decides four structural invariants that every statement of the package must preserve and that together imply "
@@ -67,7 +67,7 @@ CLAIMS = {
              "iff >= 2 LIVE referents after pruning; only four functions call the tracker; copy() builds fresh storage.",
         note="Trusted: CPython keeps a tuple alive while a live vector references it (identity cannot be recycled); weakref "
              "semantics. Empty vectors / `v << []` really share storage, so refusal there is consistent with the statement.",
-        technique="CFG pairing (dominance/post-dominance) + path-sensitive def-use staleness + shape facts of the tracker",
+        technique="CFG pairing (dominance/post-dominance) + path-sensitive def-use staleness + term-domain abstract interpretation of the tracker (register / unregister events and conditions)",
         design="2/C15"),
     "C16": dict(
         text="Cache-coherence by structure: every Vector storage swap is followed on all paths by invalidation of the same "
@@ -114,7 +114,7 @@ CLAIMS = {
              "key over all columns; Row snapshots the table's current column tuples unfiltered and every accessor indexes "
              "them with the row index; >>, <<, .T have the expected shape. Cell equality as values is not decided.",
         note="A structural necessary condition is decided, not the run-time values.",
-        technique="CFG dominance of raising guards + who-may-store + typestate of the work list + shape matchers",
+        technique="term-domain abstract interpretation (length guards as path conditions at every column store, row-view terms) + CFG dominance + who-may-store",
         design="2/C02"),
     "C07": dict(
         text="Comparison kernels (8 construction sites incl. the date-specific ones) build constant non-nullable bool vectors "
@@ -126,7 +126,7 @@ CLAIMS = {
              "loop appends or raises; row selections map the same key over all columns; by-name lookup is exact-name-first.",
         note="Slice arithmetic (typeutils.slice_length) is numeric and not decided; value equality with list slicing is "
              "delegated to tuple.__getitem__.",
-        technique="construction-site matchers + CFG reachability + flag-sensitive must-pass-through + R-FALSY lint",
+        technique="construction-site matchers + CFG reachability + flag-sensitive must-pass-through + R-FALSY lint + term-domain abstract interpretation of the multi-name selection (search-idiom terms)",
         design="2/C07"),
     "C05": dict(
         text="'Exactly what Python computes' is obtained by delegation, and the delegation is decided to be wired correctly for "
@@ -158,7 +158,7 @@ CLAIMS = {
              "is extracted with locals inlined and comprehension variables alpha-renamed and compared with the textbook spec and "
              "across the siblings aggregate / window / Vector; isna, dropna, fillna use the one predicate `x is None`.",
         note="Numeric agreement of the builtin reducers with the None-free list is delegated, not decided.",
-        technique="normal-form fact extraction (inlining + alpha-renaming) + spec table + sibling comparison",
+        technique="normal-form fact extraction of reducers (inlining + alpha-renaming) vs spec table + term-domain abstract interpretation of aggregate/window (which reducer closure produces each group's value from which gathered values) + sibling comparison",
         design="2/C06"),
     "C12": dict(
         text="aggregate's structure is extracted by dataflow roles and decided: partition loop over range(len(self)) with keys = "
@@ -168,7 +168,7 @@ CLAIMS = {
              "None included) is called once per group on the values gathered in row order; Vector reductions are fact-equal; "
              "length guards, exact-name resolution of columns given by name, determinism, purity.",
         note="Numeric results and equality/hash behaviour of exotic keys are run-time properties and not decided.",
-        technique="dataflow role extraction + aggregator fact tuples vs spec + sibling comparison",
+        technique="term-domain abstract interpretation -> semantic group-by model (partition key, first-sight index discipline, outputs classified by parameter, reducer provenance of every group value) + aggregator fact tuples vs spec + sibling comparison",
         design="2/C12"),
     "C13": dict(
         text="window = aggregate expanded back to rows is decided structurally: window partitions exactly like aggregate and "
@@ -177,7 +177,7 @@ CLAIMS = {
              "expansion of its own column's group values; key columns are list(col), first; the six aggregators, the output "
              "naming and uniquify are fact-/alpha-equal to aggregate's; apply, guards, purity.",
         note="Value equality with an actual aggregate + join-back is not decided.",
-        technique="dataflow role extraction + sibling (aggregate vs window) fact and alpha-canonical comparison",
+        technique="term-domain abstract interpretation -> semantic window model (per-row key memo, group map, row expansion) + sibling (aggregate vs window) fact comparison",
         design="2/C13"),
     "C14": dict(
         text="Permutation and stability are decided by structure: one index list list(range(nrows)) that only .sort() ever "
@@ -188,7 +188,7 @@ CLAIMS = {
              "select or parameterise the key), requiring distinct flags and None after all values iff na_last once the reversal "
              "is applied. reverse normalisation, purity, by-name key resolution.",
         note="Totality of the order on the non-None values is user data and not decided.",
-        technique="typestate of the index list + shape matchers + finite abstract evaluation of the sort key functions",
+        technique="term-domain abstract interpretation of sort_by (index permutation events, passes, rebuild) + finite evaluation of the key function's flag term over every (reverse, na_last, is-None) cell",
         design="2/C14"),
     "C17": dict(
         text="The sanitiser's pipeline order and step details are decided from its AST, its regular expression is parsed with "
@@ -200,7 +200,7 @@ CLAIMS = {
              "always stored, every store to a column name in a Table method is followed by a rebuild; nothing writes stored "
              "names; string indexing is exact-name-first.",
         note="Pairwise distinctness of accessors is argued from the decided ingredients (suffix rules + own position), not enumerated.",
-        technique="AST pipeline matcher + regex syntax-tree analysis + kernel fact comparison + CFG must-pass-through + who-may-read rule",
+        technique="decomposition of the sanitiser's returned term into its pipeline stages + regex syntax-tree analysis + accessor kernels evaluated per situation by term simplification + CFG feasible-path must-pass-through + who-may-read rule",
         design="2/C17"),
     "C18": dict(
         text="A typing discipline on the NAME argument of every construction site, one admissible class per operation category: "
@@ -211,7 +211,7 @@ CLAIMS = {
              "copying and restores them by position; >> names a FRESH copy with the dict key; join results take source names "
              "with matching buffer index; aggregate/window keys and outputs pass through uniquify (shape-checked, sibling-equal).",
         note="The concrete suffix numbers chosen by uniquify are not decided.",
-        technique="construction-site name provenance + finite abstract evaluation of the naming decision function + sibling comparison",
+        technique="construction-site name provenance + finite abstract evaluation of the naming decision function + term-domain abstract interpretation of join / aggregate / window / construction naming + sibling comparison",
         design="2/C18"),
     "C19": dict(
         text="Decided clauses of a mostly value-level property: records come from csv.reader(file_obj, delimiter=delimiter) only, "
@@ -221,7 +221,7 @@ CLAIMS = {
              "short records with None, names columns by the header cell verbatim with inferred dtype, collects them in a list; "
              "no dict keyed by column names; empty and header-only inputs construct tables from lists.",
         note="Round-trip faithfulness of cell texts, quoting and unicode is the csv module's run-time behaviour and is not decided.",
-        technique="AST shape matchers + CFG order checks + who-may-call rule for lexing",
+        technique="term-domain abstract interpretation of the csv reader (cell-typing returns and handler conditions, transposition events, header/data terms) + who-may-call rule for lexing",
         design="2/C19"),
     "C20": dict(
         text="Totality and truthfulness of repr are decided by structural necessary conditions: partial operations on element "
@@ -231,7 +231,7 @@ CLAIMS = {
              "decided over all columns; the preview is head k + ellipsis + tail k iff len > 2k with exactly one halving of the "
              "row budget on each path (global default and per-table override); headers show stored names; repr is pure.",
         note="Totality over arbitrary user objects whose __str__/__eq__ raise, alignment and exact line counts are not decided.",
-        technique="guard/dominance analysis + interprocedural positivity of slice bounds + dataflow provenance of footer inputs + effect summaries",
+        technique="guard/dominance analysis + interprocedural positivity of slice bounds + definite assignment with correlated branch outcomes + term-domain evaluation of footer inputs (dtype token per situation) + effect summaries",
         design="2/C20"),
 }
 
